@@ -26,7 +26,7 @@ void *__real_calloc(size_t, size_t);
 void *__real_realloc(void *, size_t);
 void __real_free(void *);
 static size_t live_bytes, peak_bytes, biggest_req;
-static void acct(size_t n)
+static void heap_acct(size_t n)
 {
 	live_bytes += n;
 	if (live_bytes > peak_bytes)
@@ -36,14 +36,14 @@ void *__wrap_malloc(size_t n)
 {
 	void *p = __real_malloc(n);
 	if (n > biggest_req) biggest_req = n;
-	if (p) acct(malloc_usable_size(p));
+	if (p) heap_acct(malloc_usable_size(p));
 	return p;
 }
 void *__wrap_calloc(size_t a, size_t b)
 {
 	void *p = __real_calloc(a, b);
 	if (a * b > biggest_req) biggest_req = a * b;
-	if (p) acct(malloc_usable_size(p));
+	if (p) heap_acct(malloc_usable_size(p));
 	return p;
 }
 void *__wrap_realloc(void *q, size_t n)
@@ -53,7 +53,7 @@ void *__wrap_realloc(void *q, size_t n)
 	if (n > biggest_req) biggest_req = n;
 	if (p) {
 		live_bytes -= old < live_bytes ? old : live_bytes;
-		acct(malloc_usable_size(p));
+		heap_acct(malloc_usable_size(p));
 	}
 	return p;
 }
